@@ -448,10 +448,15 @@ OP_TOPOLOGY = {'g1': ('G1',), 'g2': ('G2',), 'g3': ('G1', 'perm', 'sub'),
 class AgentProc(Process):
     """Resident process of an agent compartment: leaf ports x and y; adds
     `inc` to x per update.  Records every invocation with its identity."""
-    defaults = {'run_id': 0, 'inc': 0, 'time_step': 1.0}
+    defaults = {'run_id': 0, 'inc': 0, 'time_step': 1.0, 'anchor': False}
 
     def ports_schema(self):
-        return {'x': dict(SUB_SCHEMA['x']), 'y': dict(SUB_SCHEMA['y'])}
+        schema = {'x': dict(SUB_SCHEMA['x']), 'y': dict(SUB_SCHEMA['y'])}
+        if self.parameters['anchor']:
+            # wired two levels up ('..', '..', 'anchor'): which node that is
+            # depends on where the compartment currently sits
+            schema['anchor'] = {'v': {'_default': 5, '_emit': True}}
+        return schema
 
     def next_update(self, timestep, states):
         ctx = CTX.get(self.parameters['run_id'])
@@ -474,6 +479,13 @@ def own_compartment(root, process):
             if child.value is process:
                 vals = {v: store.inner[v].value for v in ('x', 'y')
                         if v in store.inner}
+                if process.parameters.get('anchor'):
+                    # follow the tree itself two levels up from the compartment
+                    up = store.outer.outer if store.outer is not None else None
+                    node = up.inner.get('anchor') if up is not None else None
+                    leaf = node.inner.get('v') if node is not None else None
+                    vals['anchor'] = {
+                        'v': leaf.value if leaf is not None else 'MISSING'}
                 return (path, vals)
             if child.inner:
                 found = walk(child, path + (k,))
@@ -506,8 +518,12 @@ def resident_parts(res, run_id, parallel=False):
               'time_step': res.get('ts', 1.0)}
     if parallel or res.get('parallel'):
         params['_parallel'] = True
+    if res.get('anchor'):
+        params['anchor'] = True
     processes = {'grow': AgentProc(params)}
     topology = {'grow': {'x': ('x',), 'y': ('y',)}}
+    if res.get('anchor'):
+        topology['grow']['anchor'] = ('..', '..', 'anchor')
     steps, flow = {}, {}
     if res.get('step'):
         if res.get('chain'):
@@ -844,6 +860,14 @@ class EmitProcess(Process):
             decl = {'_emit': leaf['emit']}
             if leaf['kind'] == 'q':
                 decl['_default'] = 0 * units(leaf['unit']).units
+            elif leaf['kind'] == 'qlist':
+                # a list of quantities written in two compatible units,
+                # declared (and emitted) in leaf['unit']
+                decl['_default'] = [
+                    1.0 * units(leaf.get('upd_unit') or leaf['unit']).units,
+                    2.0 * units(leaf['unit']).units]
+                decl['_units'] = units(leaf['unit']).units
+                decl['_updater'] = 'set'
             else:
                 decl['_default'] = 0
                 decl['_updater'] = recording_updater(
@@ -864,6 +888,10 @@ class EmitProcess(Process):
         for leaf in self.parameters['leaves']:
             if leaf['kind'] == 'q':
                 v = 1 * units(leaf.get('upd_unit') or leaf['unit']).units
+            elif leaf['kind'] == 'qlist':
+                if not leaf.get('write'):
+                    continue        # never written: stays as declared
+                v = [3.0 * units(leaf.get('upd_unit') or leaf['unit']).units]
             else:
                 v = 1
             cur = upd
